@@ -257,6 +257,7 @@ def write_evidence(pid, tier, seed, mod, results, extra, xs, violations, known_h
             "bounds": getattr(mod, "BOUNDS", {}).get(tier),
             "outside_bounds": getattr(mod, "OUTSIDE", None),
             "functions_encoded": repo_functions_hint(mod),
+            "stubs_and_shims": _shims_doc(),
             "paths": {"explored": paths, "by_status": dict(sorted(status.items()))},
             "queries": sum(r.queries for r in results),
             "property_queries_unsat": sum(r.prop_queries for r in results),
@@ -279,6 +280,15 @@ def write_evidence(pid, tier, seed, mod, results, extra, xs, violations, known_h
     os.makedirs(d, exist_ok=True)
     with open(os.path.join(d, f"{pid}.json"), "w") as f:
         json.dump(ev, f, indent=1, default=repr)
+
+
+def _shims_doc():
+    try:
+        from vf import world
+
+        return list(world.SHIMS_DOC)
+    except Exception:  # noqa: BLE001
+        return []
 
 
 def ex_sig(f):
